@@ -17,9 +17,15 @@
  *   m dhash                      mpt_dispatch_hash(catch-all handler) on the message: verdict and command hash
  *   m qget <max> <off> <fill-hex> <pos> <take> [novec]   mpt_message_get on a queue (novec: no iovec for a second part);
  *                                the result becomes the message
+ *   m guards                     the NULL-argument guards of the search functions
+ *   m big <sbuf|scobs> <seed> <kind> <sizes> <n1> <n2>   generated fragments (up to 150000 bytes) through
+ *                                mpt_stream_append on a buffered stream to a file; see the op
  */
+#define _GNU_SOURCE
 #include "drv_util.h"
 #include <errno.h>
+#include <sys/mman.h>
+#include "drv_biggen.h"
 #include <sys/uio.h>
 #include "array.h"
 #include "queue.h"
@@ -364,6 +370,75 @@ int main(void)
 			tail(code);
 			mpt_stream_close(&st);
 			close(sv[1]);
+		}
+		else if (!strcmp(op, "big") && drv_nw == 8 && (!strcmp(drv_w[2], "sbuf") || !strcmp(drv_w[2], "scobs"))) {
+			/* m big <sbuf|scobs> <seed> <kind> <sizes> <n1> <n2>: generated fragments through mpt_stream_append on a
+			 * buffered stream writing to a file (no encoder / COBS).  With n1, n2 > 0 a first message of n1 bytes is
+			 * finished, n2 bytes of the next message are pushed and the stream is flushed BEFORE the fragments are
+			 * appended to that message (unfinished bytes at a queue offset > 0).  The messages found in the file
+			 * are reported as length:fnv64 */
+			size_t seed, kind, n1, n2, sizes[MAXF], total; int nf, cobs = drv_w[2][1] == 'c';
+			if (drv_parse_nat(drv_w[3], &seed) || seed > 1000 || drv_parse_nat(drv_w[4], &kind) || kind > 2
+			    || (nf = big_sizes(drv_w[5], sizes, MAXF, &total)) < 0 || total > 150000
+			    || drv_parse_nat(drv_w[6], &n1) || n1 > 2000 || drv_parse_nat(drv_w[7], &n2) || n2 > 2000) { puts("bad-op"); continue; }
+			int fd = memfd_create("c17big", 0), rd = fd < 0 ? -1 : dup(fd);
+			if (fd < 0 || rd < 0) { puts("R nofile"); continue; }
+			MPT_STRUCT(socket) sock; sock._id = fd;
+			MPT_STRUCT(stream) st = MPT_STREAM_INIT;
+			if (mpt_stream_dopen(&st, &sock, MPT_STREAMFLAG(Write) | MPT_STREAMFLAG(Buffer)) < 0) { close(fd); close(rd); puts("R nostream"); continue; }
+			if (cobs) st._wd._enc = mpt_message_encoder(MPT_ENUM(EncodingCobs));
+			else st._info._fd |= ((uintptr_t) MPT_ENUM(NewlineUnix)) << 14;   /* a message ends with one newline byte */
+			uint8_t *all = malloc(total + n1 + n2 + 1);
+			struct iovec bv[MAXF]; MPT_STRUCT(message) bm = MPT_MESSAGE_INIT;
+			size_t at = 0; ssize_t pr = 0;
+			for (int i = 0; i < nf; i++) {
+				/* every fragment in a block of its own (overruns are seen by the sanitizer) */
+				uint8_t *b = malloc(sizes[i] ? sizes[i] : 1);
+				big_fill(b, kind, seed, at, sizes[i]);
+				if (!i) { bm.base = b; bm.used = sizes[i]; }
+				else { bv[i - 1].iov_base = b; bv[i - 1].iov_len = sizes[i]; }
+				at += sizes[i];
+			}
+			bm.cont = bv; bm.clen = nf - 1;
+			if (n1 || n2) {
+				big_fill(all, kind, seed + 1, 0, n1);
+				if (n1) pr = mpt_stream_push(&st, n1, all);
+				if (pr >= 0) pr = mpt_stream_push(&st, 0, 0);
+				big_fill(all, kind, seed + 2, 0, n2);
+				if (pr >= 0 && n2) pr = mpt_stream_push(&st, n2, all);
+				mpt_stream_flush(&st);
+			}
+			before();
+			ssize_t r = pr < 0 ? pr : mpt_stream_append(&st, &bm);
+			ssize_t e = mpt_stream_push(&st, 0, 0);
+			mpt_stream_flush(&st);
+			mpt_stream_close(&st);
+			free((void *) bm.base);
+			for (int i = 1; i < nf; i++) free(bv[i - 1].iov_base);
+			/* read the file back */
+			size_t cap = 2 * (total + n1 + n2) + 4096, got = 0; ssize_t n;
+			uint8_t *rx = malloc(cap), *dec = malloc(cap);
+			lseek(rd, 0, SEEK_SET);
+			while (got < cap && (n = read(rd, rx + got, cap - got)) > 0) got += n;
+			close(rd);
+			printf("R ret=%zd msgs=", r);
+			if (!cobs) printf("%zu:%016llx", got, (unsigned long long) big_fnv(rx, got));
+			else {
+				size_t start = 0; int any = 0;
+				for (size_t i = 0; i < got; i++) {
+					if (rx[i]) continue;
+					long d = big_uncobs(rx + start, i - start, dec);
+					if (any++) fputc(',', stdout);
+					if (d < 0) printf("bad@%zu", start); else printf("%ld:%016llx", d, (unsigned long long) big_fnv(dec, d));
+					start = i + 1;
+				}
+				if (start < got) { if (any++) fputc(',', stdout); printf("partial@%zu+%zu", start, got - start); }
+				if (!any) fputc('-', stdout);
+			}
+			free(rx); free(dec); free(all);
+			char code[48];
+			snprintf(code, sizeof(code), "%zd", e);
+			tail(code);
 		}
 		else if (!strcmp(op, "dhash") && drv_nw == 2) {
 			/* mpt_dispatch_hash with a catch-all handler: the command word (first argument after the 2-byte type
